@@ -175,7 +175,10 @@ def run_chunk(lists):
                     viols.append((f"C15:raises:{mode}:{type(e).__name__}", f"{ids} mode={mode}: {e!r}", case))
                     continue
                 edup, efirst = reference(ids, mode)
-                got_first = [net.reaction_list.index(f) if False else next(i for i, r in enumerate(net.reaction_list) if r is f) for f in first]
+                got_first = [next((i for i, r in enumerate(net.reaction_list) if r is f), None) for f in first]
+                if None in got_first:
+                    viols.append((f"C15:first-objects:{mode}", f"{ids} mode={mode}: the reported first members are not reactions of the network (copies: index {[getattr(f, 'idxfromfile', None) for f in first]})", case))
+                    continue
                 if list(dupidx) != edup:
                     kind = "missed" if set(edup) - set(dupidx) else "spurious" if set(dupidx) - set(edup) else "order"
                     viols.append((f"C15:dupidx:{mode}:{kind}", f"{ids} mode={mode}: reported indices {list(dupidx)}, pairwise reference {edup}", case))
